@@ -169,6 +169,20 @@ Theorem C12_stream_sps_last_writer_wins : forall before n b r after x t cs ctx0 
 Proof. exact stream_sps_last_writer_wins. Qed.
 Print Assumptions C12_stream_sps_last_writer_wins.
 
+(* ... and of PPSs (a PPS is parsed against the context the units before it left) *)
+Theorem C12_stream_pps_last_writer_wins : forall before n b r after p t cs ctx0 pre,
+  let u := b :: r in
+  let units := (before ++ (n, u) :: after)%list in
+  Forall (fun v => unit_ok (snd v)) units -> (t = 0%nat \/ 3 <= t)%nat ->
+  Forall (fun v => exists q, unescape (skipn 1 (snd v)) = Some q) units ->
+  nal_header_new b = Some b -> nal_unit_type_id b = 8 ->
+  pps_from_bits (fold_left ctx_after_unit (map snd before) ctx0) (nal_bitsrc u) = OK p ->
+  Forall (fun v => forall c' y, pps_from_bits c' (nal_bitsrc (snd v)) = OK y -> pic_parameter_set_id y <> pic_parameter_set_id p) after ->
+  concat cs = annexb_encode units t ->
+  pps_by_id (ps_ctx (fst (pipeline_run ctx0 [] pre (map APush cs ++ [AReset])))) (pic_parameter_set_id p) = Some p.
+Proof. exact stream_pps_last_writer_wins. Qed.
+Print Assumptions C12_stream_pps_last_writer_wins.
+
 (* From the structures to the context, through every layer at once: an SPS and a PPS referring to it, each encoded per
    7.3.2.1 / 7.3.2.2, completed by rbsp trailing bits, escaped (7.4.1), given the header bytes 0x67 / 0x68, serialised as
    an Annex B stream (any start-code lengths / zero padding) and pushed in ANY pieces into the pipeline starting from any
